@@ -65,6 +65,8 @@ type Violation struct {
 	Draws    []Draw
 	Observes []ObsOut
 	Path     []Decision
+
+	SecondSolverOnly bool // found only by the cross-check run (other solver as primary): reported if it replays natively, dropped with a note otherwise
 }
 
 // Draw is the concrete value of one harness input under a model (what the native replay feeds back).
